@@ -46,6 +46,21 @@ From Delb.XPath Require Import FetchCreate.
 Definition enc_fault (f : fault) : list N :=
   match f with FRejected e => [1%N; enc_exn e] | FCrash e => [2%N; enc_exn e] end.
 (* outcome ++ content of the tree afterwards *)
+(* the caller's ambient filter: 0 default (tag or text), 1 none, 2 text only, 3 comment only, 4 tag only *)
+Definition vis_of (code : N) (t : itree) : bool :=
+  match code, ipayload t with
+  | 0%N, _ => default_vis t
+  | 1%N, _ => true
+  | 2%N, PText _ => true
+  | 3%N, PComment _ => true
+  | 4%N, PTag _ _ _ => true
+  | _, _ => false
+  end.
+Definition run_foc_vis (code : N) (root : itree) (m_eval m_create : nsmap) (e : xpath_expr) (ctx : npath) : list N :=
+  match foc (vis_of code) root m_eval m_create e ctx with
+  | FocOk r p => 0%N :: enc_pos p ++ enc_node (content r)
+  | FocFault r f => enc_fault f ++ enc_node (content r)
+  end.
 Definition run_foc (root : itree) (m_eval m_create : nsmap) (e : xpath_expr) (ctx : npath) : list N :=
   match foc default_vis root m_eval m_create e ctx with
   | FocOk r p => 0%N :: enc_pos p ++ enc_node (content r)
